@@ -249,6 +249,9 @@ func caseTimeout(line string) time.Duration {
 	if strings.HasPrefix(line, "fzparse") {
 		return 5 * time.Second
 	}
+	if strings.HasPrefix(line, "fzloop") {
+		return 100 * time.Second
+	}
 	return 60 * time.Second
 }
 
